@@ -31,6 +31,11 @@ type TraceVisit func(v ssa.Value, path []int) bool
 // approximated by "all stores to the cell", heap fields by all stores to (type,field) in the repo).
 // `path` is the list of struct fields still to be selected from the value.
 func (p *Prog) TraceBack(start ssa.Value, opts TraceOpts, visit TraceVisit) (truncated bool) {
+	return p.TraceBackPath(start, nil, opts, visit)
+}
+
+// TraceBackPath is TraceBack starting with a pending field selection (trace field `path` of the struct value start).
+func (p *Prog) TraceBackPath(start ssa.Value, startPath []int, opts TraceOpts, visit TraceVisit) (truncated bool) {
 	type item struct {
 		v    ssa.Value
 		path string
@@ -59,7 +64,7 @@ func (p *Prog) TraceBack(start ssa.Value, opts TraceOpts, visit TraceVisit) (tru
 		seen[k] = true
 		wl = append(wl, work{v, path})
 	}
-	push(start, nil)
+	push(start, startPath)
 	n := 0
 	for len(wl) > 0 {
 		w := wl[len(wl)-1]
@@ -209,6 +214,9 @@ func (p *Prog) traceLoad(addr ssa.Value, path []int, opts TraceOpts, push func(s
 	case *ssa.FieldAddr:
 		full := append([]int{a.Field}, path...)
 		base := a.X
+		if opts.ThroughOps {
+			push(base, nil) // the loaded value depends on which object is read
+		}
 		if fv, ok := base.(*ssa.FreeVar); ok {
 			for _, b := range p.freeVarBindings(fv) {
 				p.traceLoad(&ssa.FieldAddr{X: b, Field: a.Field}, path, opts, push)
@@ -235,6 +243,10 @@ func (p *Prog) traceLoad(addr ssa.Value, path []int, opts TraceOpts, push func(s
 		}
 		// whole-struct stores through pointers of that type (rare): *p = T{...} handled by composite literal field stores
 	case *ssa.IndexAddr:
+		if opts.ThroughOps {
+			push(a.X, nil)
+			push(a.Index, nil)
+		}
 		// element of a local array/slice backing store (variadic packing): all element stores to the same base
 		if refs := a.X.Referrers(); refs != nil {
 			for _, r := range *refs {
